@@ -85,6 +85,29 @@ STRENGTHENED = {
  'C17-H': 'missed at first: single group column holding NULL next to the texts `\\\\N`, `\\\\\\\\N`, `NULL`',
  'C18-G': 'missed at first (event timestamps never went back): producers now send event-time rows in blocks whose late rows re-emit fired windows while on-time rows keep the watermark moving; reported as `lifecycle.hang`',
  'C20-H': 'missed at first: added MATCH_RECOGNIZE instances whose DEFINE cannot be evaluated on some rows (division by zero), paired with another pattern query over the same field names',
+ 'C02-I': 'missed at first: the idle-timeout probe now sends stragglers (newer than every event, seconds older than the idle-advanced watermark) after the firing; nothing may be delivered again (`idle.late_straggler_changed_results`)',
+ 'C03-I': 'missed at first: subtractions written without blanks (`w-1`, `v-1`, `o.x-2.5`) as arguments inside the compound item `sumdiff`',
+ 'C04-I': 'missed at first: added the stream `c04distinct` (SELECT DISTINCT over grouped rows whose key texts read like a written-out row)',
+ 'C04-J': 'missed at first: session windows - two rows of one tuple less than a timeout apart must be reported in one result (`groupby.equal_values_split`)',
+ 'C05-I': 'missed at first: added the stream `c05types` (output of a row after rows of other Go types vs as the first row of fresh column names)',
+ 'C05-J': 'missed at first: added drop-strategy load runs (what is delivered keeps the emission order; the deficit is bounded by input_dropped_count)',
+ 'C06-J': 'missed at first: comparison templates (`<>`, `!=`, `==` via expr()) in the row-type-order stream',
+ 'C07-J': 'missed at first: a second, asynchronous sink reads its batch 1 ms late and must read one of the delivered batches (`batch.altered_before_slow_sink_read`)',
+ 'C08-J': 'missed at first: event-time generators produce silences of more than a day (windows of 5 s and more)',
+ 'C09-I': 'missed at first: added the stream `c09prod`; a faulty synchronous sink registered before the recording sink panics on every second batch',
+ 'C09-J': 'missed at first: `c09prod` - several producers with keys of their own emit concurrently into an 8-slot input buffer that grows on demand',
+ 'C10-I': 'missed at first: rows arriving many positions late (within the tolerance) and the clause that two reported sessions of one key never interleave (`session.split_without_gap`)',
+ 'C10-J': 'missed at first: added the `slow` feed (producer pauses longer than the watermark\'s own 200 ms update period)',
+ 'C11-I': 'missed at first: MATCH_RECOGNIZE ORDER BY keys named like keywords (`timestamp`, `TimeStamp`)',
+ 'C11-J': 'missed at first: the boundary value LIMIT 0 after whichever clause comes last',
+ 'C13-I': 'missed at first: added the stream `c13nullpair` (two IS [NOT] NULL tests on different columns joined by AND / OR)',
+ 'C14-I': 'missed at first: added the stream `c14multi` (had_changed(true, *) next to lag(); an alias that shadows an input column)',
+ 'C14-J': 'missed at first: `c14multi` - the same call text twice in WHERE with different OVER clauses',
+ 'C18-J': 'missed at first: window queries with a block timeout of 300 s behind slow / blocked sinks (reported as `lifecycle.hang`)',
+ 'C19-I': 'missed at first: a configuration with ExpansionTimeout 1 ms and a 20 000-row backlog behind a slow consumer',
+ 'C19-J': 'missed at first: producers also emit nil maps (a JSON null payload)',
+ 'C20-I': 'missed at first: added the query kind `cep_all_rows` (ALL ROWS PER MATCH with MEASURES)',
+ 'C20-J': 'missed at first: added the query kind `array_fns` (array_remove / array_distinct / … over the caller\'s slices)',
 }
 rows = []
 n = caught = 0
@@ -128,7 +151,7 @@ new7 = '''## 7. Trusting the monitors: seeded changes
    worktree, and asked for two realistic changes (A, B) that break the property while the library still compiles
    and its suite still passes, each needing something specific to manifest, with a demonstration test.  A second
    round of fresh sub-agents (again only the property text, plus the one-line titles of A and B so as not to
-   repeat them) produced two more per property (C, D), a third round two more (E, F) and a fourth round two more (G, H).  Each
+   repeat them) produced two more per property (C, D), a third round two more (E, F), a fourth (G, H) and a fifth (I, J).  Each
    change was kept only after it was confirmed here (`tools/seedcheck.py`, scratch worktree of /repo HEAD): the
    patch applies and builds, the demonstration FAILS with it and PASSES without it, the unedited suite passes
    with it; then the property's quick check was run against the patched tree (a scratch copy of /verif whose
